@@ -38,6 +38,9 @@ def gen_owner_records(rng, curie_pool, uri_pool, n):
     return out
 
 
+DERIVED_SITES = ("chain", "get_subconverter", "rewire", "remap_uri", "remap_curie")
+
+
 class _NotARecord(ValueError):
     """Record(**submission) raised inside the harness: the submission is not a record under this library."""
 
@@ -55,6 +58,7 @@ class C01Machine(Machine):
         "bulk_via_ctor", "bulk_via_epm", "bulk_via_priority", "bulk_via_reverse", "large_owner_map", "derived_view_sub", "derived_view_chain_self", "derived_view_rewire", "derived_view_remap_uri",
         "derived_view_remap_curie", "record_with_pattern", "piece_with_pattern", "records_given_as_generator", "records_given_as_iterator",
         "records_given_as_dict_values", "records_given_as_tuple", "records_given_as_map", "more_than_256_uri_prefixes",
+        "flood_of_lookups_between_deliveries", "flood_of_more_than_2048_lookups",
     ]
 
     @classmethod
@@ -79,6 +83,9 @@ class C01Machine(Machine):
             # how often the converter is looked at: after every step, or only every k-th delivery, or only
             # at the end of a schedule (a loaded converter that is extended before its first lookup)
             "check_every": rng.choice([1, 1, 1, 1, 1, 2, 3, 1000000]),
+            # a flood of distinct throw-away lookups between two deliveries (what compressing a column of a
+            # few thousand URIs does): 0 = none
+            "flood": rng.choice([300, 600, 1100, 2100, 2600, 4200, 9000]) if rng.random() < (0.05 if tier == "quick" else 0.08) else 0,
         }
         huge = large and rng.random() < 0.15      # past 256 records / URI prefixes
         cfg["huge"] = huge
@@ -106,6 +113,7 @@ class C01Machine(Machine):
         self.plan = None          # list of ops still to emit
         self.conv = None
         self.owners = OwnerMap()
+        self.names = {}           # CURIE prefix / synonym -> canonical CURIE prefix, as delivered (from Record objects)
         self.delivered = []       # record dumps delivered so far (whole or in part)
         self.finals = []          # final answers per schedule
         if config.get("huge"):
@@ -125,6 +133,7 @@ class C01Machine(Machine):
         self.delimiter_given = None
         self.n_probe_checks = 0
         self.check_every = int(config.get("check_every", 1))
+        self.flood = []
         self.n_deliveries = 0
         self.dirty = False
 
@@ -272,6 +281,9 @@ class C01Machine(Machine):
                 mapping = [[r0["prefix"], rng.choice(cfg["curie_pool"] + ["new9"])]]
             tail.append({"op": "derived_view", "kind": kind2, "mapping": mapping, "schedule": k,
                          "follow_up": rng.random() < 0.5})
+        if cfg.get("flood") and not cfg.get("huge") and len(steps) >= 2:
+            for _ in range(rng.choice([1, 1, 2])):
+                steps.insert(rng.randint(1, len(steps) - 1), {"op": "flood", "n": cfg["flood"], "schedule": k})
         # interleave the later pieces at seeded positions after their head
         for piece in later:
             key = piece["prefix"] if "prefix" in piece else piece.get("anchor", piece["record"]["prefix"])
@@ -294,6 +306,10 @@ class C01Machine(Machine):
                     c = copy.deepcopy(op)
                     del c["record"][key][i]
                     yield c
+        if op["op"] == "flood":
+            for n2 in (300, 1100, 2100):
+                if n2 < op["n"]:
+                    yield dict(op, n=n2)
         if op["op"] == "ctor":
             for i in range(len(op["records"])):
                 c = copy.deepcopy(op)
@@ -317,9 +333,13 @@ class C01Machine(Machine):
             yield c
 
     # ------------------------------------------------------------ execution
-    def _register(self, rd, only_uris=None):
-        for u in ([rd["uri_prefix"], *rd["uri_prefix_synonyms"]] if only_uris is None else only_uris):
-            self.owners.register(u, rd["prefix"])
+    def _register(self, rec, owner=None):
+        """Enter a delivered record into the owner map - from the Record OBJECT the library built from the
+        caller's data (what a Record validator drops or normalises was never registered), not from the op."""
+        for u in [rec.uri_prefix, *rec.uri_prefix_synonyms]:
+            self.owners.register(u, rec.prefix if owner is None else owner)
+        for n in [rec.prefix, *rec.prefix_synonyms]:
+            self.names.setdefault(n, rec.prefix if owner is None else owner)
 
     def _catch_up(self):
         self.unobserved_run = 0
@@ -335,6 +355,8 @@ class C01Machine(Machine):
             self.finals.append(self._final_answers())
         self.conv = None
         self.owners = OwnerMap()
+        self.names = {}
+        self.flood = []
         self.schedule_no += 1
 
     def apply(self, op):
@@ -353,7 +375,7 @@ class C01Machine(Machine):
                 self.focus = []
                 self.dirty = False
                 self._check("refused " + str(op.get("op")))
-            return {"refused": type(e).__name__}
+            return {"refused": True}
         except Exception as e:  # noqa: BLE001
             from ..env import HarnessError
             if isinstance(e, HarnessError):
@@ -374,6 +396,17 @@ class C01Machine(Machine):
             self.event("record_not_constructible")
             raise _NotARecord(type(e).__name__) from None
 
+    def _still_disjoint(self, objs, overlapping=False):
+        """The generated owner map is strict-valid as DATA; the Record class may normalise names (case,
+        Unicode form, blanks) so that two records now share one - then this is no longer one valid map and
+        what chain() makes of it is C09's business, not a delivery schedule of C01."""
+        seen_c, seen_u = {}, {}
+        for o in objs:
+            for name, seen in [(n, seen_c) for n in [o.prefix, *o.prefix_synonyms]] + [(n, seen_u) for n in [o.uri_prefix, *o.uri_prefix_synonyms]]:
+                if seen.setdefault(name, o.prefix) != o.prefix:
+                    self.event("map_not_disjoint_after_record_normalisation")
+                    raise _NotARecord("normalised names collide")
+
     def _apply(self, op):
         c = self.curies
         Converter = c.Converter
@@ -391,6 +424,11 @@ class C01Machine(Machine):
                 self.event("confluence_skipped_after_refusal")
                 return {"confluence": "skipped"}
             for n, f in enumerate(self.finals[1:], start=1):
+                if f["owners"] != ref["owners"]:
+                    # the schedules did not register the same owner map (a Record validator dropped or
+                    # normalised something that another route delivered as it was): not comparable
+                    self.event("confluence_skipped_owner_maps_differ")
+                    continue
                 a, b = ref["answers"], f["answers"]
                 if ref["delimiter"] != f["delimiter"]:
                     # chain() builds with the default delimiter: not an order effect
@@ -400,6 +438,34 @@ class C01Machine(Machine):
                     raise Violation(PROP, "order_dependent_answer", "schedules",
                                     {"schedule": n, "diff": observe.diff(a, b)})
             return {"confluence": len(self.finals)}
+        if kind == "flood":
+            if self.conv is None:
+                return {"skipped": True}
+            self._catch_up()
+            pool = self.config["uri_pool"]
+            conv, owners = self.conv, self.owners
+            flood = []
+            for i in range(int(op["n"])):
+                u = pool[i % len(pool)] + "f" + str(i // len(pool))
+                flood.append(u)
+                want = owners.parse(u)
+                which = i % 3
+                if which == 0:
+                    got, exp = observe.call(conv.parse_uri, u, return_none=True), ["ok", None if want is None else [want[0], want[1]]]
+                elif which == 1:
+                    got, exp = observe.call(conv.is_uri, u), ["ok", want is not None]
+                else:
+                    got, exp = observe.call(conv.compress, u), ["ok", None if want is None else want[0] + conv.delimiter + want[1]]
+                if got != exp:
+                    raise Violation(PROP, ("parse_uri", "is_uri", "compress")[which] + "_mismatch", "flood of lookups",
+                                    {"uri": u, "got": got, "expected": exp, "nth_lookup": i})
+            # a spread of the flood (old and recent strings) is asked again after every later delivery
+            step = max(1, len(flood) // 40)
+            self.flood = list(dict.fromkeys(flood[::step] + flood[:6] + flood[-6:]))
+            self.probe("flood_of_lookups_between_deliveries")
+            if len(flood) > 2048:
+                self.probe("flood_of_more_than_2048_lookups")
+            return {"flood": len(flood)}
         if kind == "derived_view":
             # "for every converter": a converter derived from the current one must obey the same rule
             # over the owner map it denotes (sub-converter: the records named; chain of itself: all)
@@ -468,29 +534,29 @@ class C01Machine(Machine):
             via = op.get("via", "ctor")
             delim = op.get("delimiter", ":")
             recs = op["records"]
+            objs = []
             if via == "epm":
                 items = []
                 for n_, r in enumerate(recs):
                     shape = (n_ + len(recs) + self.steps) % 3
+                    objs.append(Record(**r))     # (for the dict shapes: pre-flight, see _mk)
                     if shape == 0:
                         items.append(Record(**r))                                   # a Record object
                     elif shape == 1:
-                        Record(**r)              # (pre-flight: see _mk)
                         items.append({k: v for k, v in r.items() if v not in ([], None)})   # optional keys left out
                     else:
-                        Record(**r)
                         items.append(dict(r))
                 self.conv = Converter.from_extended_prefix_map(
                     tokens.as_container(op.get("container", "list"), items), delimiter=delim)
                 self.probe("epm_given_as_" + op.get("container", "list"))
             elif via == "priority":
                 for r in recs:
-                    Record(prefix=r["prefix"], uri_prefix=r["uri_prefix"], uri_prefix_synonyms=list(r["uri_prefix_synonyms"]))
+                    objs.append(Record(prefix=r["prefix"], uri_prefix=r["uri_prefix"], uri_prefix_synonyms=list(r["uri_prefix_synonyms"])))
                 self.conv = Converter.from_priority_prefix_map(
                     {r["prefix"]: [r["uri_prefix"], *r["uri_prefix_synonyms"]] for r in recs}, delimiter=delim)
             elif via == "reverse":
                 for r in recs:
-                    Record(prefix=r["prefix"], uri_prefix=r["uri_prefix"], uri_prefix_synonyms=list(r["uri_prefix_synonyms"]))
+                    objs.append(Record(prefix=r["prefix"], uri_prefix=r["uri_prefix"], uri_prefix_synonyms=list(r["uri_prefix_synonyms"])))
                 rpm = {}
                 known = {(u, r["prefix"]) for r in recs for u in [r["uri_prefix"], *r["uri_prefix_synonyms"]]}
                 for u, pr in op.get("rpm_pairs", []):
@@ -501,25 +567,27 @@ class C01Machine(Machine):
                         rpm.setdefault(u, r["prefix"])
                 self.conv = Converter.from_reverse_prefix_map(rpm, delimiter=delim)
             else:
-                self.conv = Converter(tokens.as_container(op.get("container", "list"), [Record(**r) for r in recs]),
-                                      delimiter=delim)
+                objs = [Record(**r) for r in recs]
+                self.conv = Converter(tokens.as_container(op.get("container", "list"), list(objs)), delimiter=delim)
                 self.probe("records_given_as_" + op.get("container", "list"))
             # the delimiter the converter was GIVEN (remembered here, not read back from the object)
             self.delimiter_given = delim
-            for r in recs:
-                self._register(r)
+            for o in objs:
+                self._register(o)
             self.event("ctor")
             self.probe("bulk_via_" + via)
         elif kind == "chain_parts":
             self._new_schedule()
-            parts = [Converter([Record(**r) for r in part]) for part in op["parts"]]
+            pobjs = [[Record(**r) for r in part] for part in op["parts"]]
+            self._still_disjoint([o for po in pobjs for o in po], overlapping=bool(op.get("overlapping")))
+            parts = [Converter(list(po)) for po in pobjs]
             self.conv = c.chain(parts)
             self.delimiter_given = None
             # chain() builds with the default delimiter; the property is about whatever
             # delimiter the converter has, so read it from the object
-            for part in op["parts"]:
-                for r in part:
-                    self._register(r)
+            for po in pobjs:
+                for o in po:
+                    self._register(o)
             self.probe("chain_parts")
             if op.get("overlapping"):
                 self.probe("chain_parts_overlapping")
@@ -553,12 +621,13 @@ class C01Machine(Machine):
                 if r.get("pattern") and kind == "add_record":
                     self.probe("record_with_pattern")
                 if kind == "add_record":
-                    conv.add_record(Record(**r))
+                    obj = Record(**r)
+                    conv.add_record(obj)
                 else:
-                    Record(**dict(r, pattern=None))          # (pre-flight: see _mk)
+                    obj = Record(**dict(r, pattern=None))          # (pre-flight: see _mk)
                     conv.add_prefix(r["prefix"], r["uri_prefix"], prefix_synonyms=list(r["prefix_synonyms"]),
                                     uri_prefix_synonyms=list(r["uri_prefix_synonyms"]))
-                self._register(r)
+                self._register(obj)
                 self.event(kind)
                 self.saw_incremental = True
             elif kind == "merge_piece":
@@ -582,18 +651,26 @@ class C01Machine(Machine):
                     pr, up, ups = op["prefix"], op["anchor_uri"], [op["uri_prefix"]]
                 else:
                     pr, up, ups = op["prefix"], op["uri_prefix"], []
+                # the piece must find exactly its record through what was really delivered (a carrier synonym
+                # that a Record validator dropped was never registered: the piece would become a record of its own)
+                found = {self.names.get(pr)} | {self.owners.owners.get(u) for u in [up, *ups]}
+                found.discard(None)
+                if found != {op["prefix"]}:
+                    self.event("merge_piece_skipped")
+                    return {"skipped": True}
                 self.probe("piece_carrier_" + carrier)
                 if op.get("into_loaded_record"):
                     self.probe("piece_into_loaded_record")
                 if op["via"] == "add_record":
-                    conv.add_record(Record(prefix=pr, uri_prefix=up, uri_prefix_synonyms=ups, pattern=op.get("pattern")),
-                                    merge=True)
+                    piece = Record(prefix=pr, uri_prefix=up, uri_prefix_synonyms=ups, pattern=op.get("pattern"))
+                    conv.add_record(piece, merge=True)
                     if op.get("pattern"):
                         self.probe("piece_with_pattern")
                 else:
-                    Record(prefix=pr, uri_prefix=up, uri_prefix_synonyms=list(ups))
+                    piece = Record(prefix=pr, uri_prefix=up, uri_prefix_synonyms=list(ups))
                     conv.add_prefix(pr, up, uri_prefix_synonyms=ups, merge=True)
-                self.owners.register(op["uri_prefix"], op["prefix"])
+                # every URI prefix the piece Record holds now belongs to the record it was merged into
+                self._register(piece, owner=op["prefix"])
                 self.probe("split_delivery")
                 self.event("merge_piece")
                 self.saw_incremental = True
@@ -611,9 +688,10 @@ class C01Machine(Machine):
                 rejected = False
                 try:
                     if op["via"] == "add_record":
-                        conv.add_record(Record(**r))
+                        dobj = Record(**r)
+                        conv.add_record(dobj)
                     else:
-                        Record(**dict(r, pattern=None))
+                        dobj = Record(**dict(r, pattern=None))
                         conv.add_prefix(r["prefix"], r["uri_prefix"], prefix_synonyms=list(r["prefix_synonyms"]),
                                         uri_prefix_synonyms=list(r["uri_prefix_synonyms"]))
                 except ValueError:
@@ -624,7 +702,7 @@ class C01Machine(Machine):
                     # accepted although it matches an existing record: that is C05's business;
                     # here the submission then simply counts as delivered
                     self.event("dup_accepted")
-                    self._register(r)
+                    self._register(dobj)
                 after = self._answers() if self.observed_now else None
                 if rejected and self.observed_now and after != before:
                     raise Violation(PROP, "answers_changed_by_rejected_duplicate", site,
@@ -656,7 +734,7 @@ class C01Machine(Machine):
         return {"owners": len(self.owners.owners), "observed": observed}
 
     def _final_answers(self):
-        return {"delimiter": self.conv.delimiter, "answers": self._answers()}
+        return {"delimiter": self.conv.delimiter, "answers": self._answers(), "owners": dict(self.owners.owners)}
 
     def _answers(self):
         conv = self.conv
@@ -672,6 +750,19 @@ class C01Machine(Machine):
     def _check(self, site):
         conv = self.conv
         owners = self.owners
+        # "registered" means: a URI prefix of a record OF THE CONVERTER. The owner map the harness keeps from
+        # what it delivered is compared with the converter's own records first; where they differ (the
+        # library made something else of a submission than the harness assumed: which names a loader makes
+        # canonical, what a validator drops - C05 / C13 matters) the lookups are judged against the records,
+        # and the schedule is no longer compared with others. Never the case on the unchanged tree.
+        rec_map = {}
+        for r in conv.records:
+            for u in [r.uri_prefix, *r.uri_prefix_synonyms]:
+                rec_map.setdefault(u, r.prefix)
+        if rec_map != owners.owners:
+            self.event("owner_map_rebased_on_the_converters_records")
+            self.tainted = True
+            owners.owners = rec_map
         if len(owners.owners) >= 40:
             self.probe("large_owner_map")
         if len(owners.owners) > 256:
@@ -694,7 +785,7 @@ class C01Machine(Machine):
                         self.probe("synonym_nested_in_other_record")
                     break
         focus, self.focus = self.focus, []
-        for u in focus + self.probes:
+        for u in focus + self.probes + (self.flood if self.conv is not None and site not in DERIVED_SITES else []):
             want = owners.parse(u)
             nm = len(owners.matching(u))
             if nm >= 2:
